@@ -326,6 +326,7 @@ class Engine:
         self.attr_hooks = {}
         self.filters = {}
         self.truth_hooks = {}
+        self.join_hooks = {}     # separator -> fn(engine, pieces): meaning of sep.join(<symbolic pieces>)
         self.setattr_hooks = {}  # (kind, attr) -> fn(engine, value, new): attribute assignment on an abstract object
         self.stmt_ghosts = False
         self.format_hooks = {}
@@ -607,6 +608,8 @@ class Engine:
             return self.truth(SV(v.ty, v.e))
         if isinstance(v, IterV):
             raise EngineError('truth of an iterator')
+        if isinstance(v, Obj) and 'truth' in v.__dict__:
+            return v.__dict__['truth']       # truthiness of an abstract object, given by the contract
         return True
 
     def _b(self, x):
@@ -709,6 +712,12 @@ class Engine:
             return self.And(z3.Not(b.ty.is_none(b.e)), self.eq(SV(b.ty.t, b.ty.get(b.e)), a))
         if {a.ty, b.ty} <= {TInt, TReal}:
             return z3.ToReal(a.e) == b.e if a.ty == TInt else a.e == z3.ToReal(b.e)
+        for x, y in ((a, b), (b, a)):
+            if isinstance(x.ty, TKey) and not isinstance(y.ty, TKey):
+                # an abstract value against a concrete one: through the declared injection, or not at all
+                if (y.ty.name, x.ty.name) in COERCIONS:
+                    return x.e == to_z3(y, x.ty)
+                raise EngineError('comparison of an abstract %s value with a %s value (no coercion declared)' % (x.ty, y.ty))
         return False
 
     def container_eq(self, a, b):
